@@ -538,6 +538,18 @@ class _rewrite_captured_vars(ast.NodeTransformer):
         ):
             return ast.Attribute(value=value, attr=node.attr, ctx=node.ctx)
 
+        # Further steps behind such an attribute (`cfg.nothere.deeper`) keep the captured value.
+        base = value
+        while isinstance(base, ast.Attribute):
+            base = base.value
+        if (
+            value is not node.value
+            and isinstance(value, ast.Attribute)
+            and isinstance(base, ast.Constant)
+            and not isinstance(base.value, (type, ModuleType))
+        ):
+            return ast.Attribute(value=value, attr=node.attr, ctx=node.ctx)
+
         # If we fail, then just move on.
         return node
 
